@@ -99,7 +99,97 @@ fn run<const N: usize>(fail_at: Option<usize>, mode: u8, out: &mut Sink) {
                &format!("constructed {} released {}: {}", constructed.len(), released_total, evs.join(" ")));
 }
 
+/// a zero-sized element with drop glue whose decoder consumes a byte and follows the same plan
+/// (a marker / permit type): the guard owes it exactly the same bookkeeping
+pub struct TrackedZst;
+
+thread_local! {
+    static ZDROPS: RefCell<usize> = RefCell::new(0);
+}
+
+impl BorshDeserialize for TrackedZst {
+    fn deserialize_reader<R: Read>(reader: &mut R) -> Result<Self> {
+        let _ = u8::deserialize_reader(reader)?;
+        let id = NEXT.with(|n| {
+            let mut n = n.borrow_mut();
+            let v = *n;
+            *n += 1;
+            v
+        });
+        let (fail_at, mode) = PLAN.with(|p| *p.borrow());
+        if fail_at == Some(id) {
+            if mode == 1 {
+                panic!("planned panic in element decoder");
+            }
+            return Err(Error::new(ErrorKind::InvalidData, "planned failure"));
+        }
+        LEDGER.with(|l| l.borrow_mut().push(format!("c{}", id)));
+        Ok(TrackedZst)
+    }
+}
+
+impl Drop for TrackedZst {
+    fn drop(&mut self) {
+        // a zero-sized value carries no identity: drops are numbered in the order they happen (the
+        // guard, and the caller's array, both drop in index order)
+        let k = ZDROPS.with(|z| {
+            let mut z = z.borrow_mut();
+            let v = *z;
+            *z += 1;
+            v
+        });
+        LEDGER.with(|l| l.borrow_mut().push(format!("d{}", k)));
+    }
+}
+
+fn run_zst<const N: usize>(fail_at: Option<usize>, mode: u8, out: &mut Sink) {
+    let mode_name = ["error", "panic"][mode as usize];
+    LEDGER.with(|l| l.borrow_mut().clear());
+    NEXT.with(|n| *n.borrow_mut() = 0);
+    ZDROPS.with(|z| *z.borrow_mut() = 0);
+    PLAN.with(|p| *p.borrow_mut() = (fail_at, mode));
+    let data = vec![7u8; N + 2];
+    let k = fail_at.map(|k| k.to_string()).unwrap_or_else(|| "none".into());
+    let case = format!("guard {} {} {}", N, k, mode_name);
+    out.announce(&case);
+    let res = catch_unwind(AssertUnwindSafe(|| {
+        let mut s = &data[..];
+        <[TrackedZst; N]>::deserialize_reader(&mut s)
+    }));
+    let during: Vec<String> = LEDGER.with(|l| l.borrow().clone());
+    let (outcome, after): (&str, Vec<String>) = match res {
+        Ok(Ok(arr)) => {
+            LEDGER.with(|l| l.borrow_mut().clear());
+            ZDROPS.with(|z| *z.borrow_mut() = 0);
+            drop(arr);
+            ("returned", LEDGER.with(|l| l.borrow().clone()))
+        }
+        Ok(Err(_)) => ("failed", vec![]),
+        Err(_) => ("unwound", vec![]),
+    };
+    let mut evs = during.clone();
+    evs.extend(after.iter().map(|d| d.replacen('d', "h", 1)));
+    out.case(&case, &format!("{} ({})", outcome, evs.join(" ")));
+    let constructed = evs.iter().filter(|e| e.starts_with('c')).count();
+    let released = evs.iter().filter(|e| e.starts_with('d') || e.starts_with('h')).count();
+    out.oracle("C15", constructed == released, &format!("{} [zero-sized element with drop glue]", case),
+               &format!("constructed {} released {}: {}", constructed, released, evs.join(" ")));
+}
+
 pub fn guard_workload(out: &mut Sink) {
+    fn zst<const N: usize>(out: &mut Sink) {
+        run_zst::<N>(None, 0, out);
+        for k in 0..N {
+            run_zst::<N>(Some(k), 0, out);
+            run_zst::<N>(Some(k), 1, out);
+        }
+    }
+    zst::<0>(out);
+    zst::<1>(out);
+    zst::<2>(out);
+    zst::<3>(out);
+    zst::<7>(out);
+    zst::<16>(out);
     fn one<const N: usize>(out: &mut Sink) {
         run::<N>(None, 0, out);
         for k in 0..N {
